@@ -979,6 +979,8 @@ class Interp:
             raise Unsupported("slice of %s" % type(o).__name__)
         if is_str(o):
             return ops.str_index(ctx, o, k)
+        if isinstance(o, (self.models.FMap, self.models.FSlot)):
+            return o.getitem(self, k)
         if isinstance(o, (SBytes, bytes, bytearray, memoryview)):
             return ops.bytes_index(ctx, o, k)
         if isinstance(o, (list, tuple)):
@@ -1046,6 +1048,8 @@ class Interp:
             k = ops.resolve_choice(ctx, k)
         if id(o) in ctx.shared_ids:
             self.note_write(o, None)          # a write to shared state is reported even if the key is symbolic
+        if isinstance(o, (self.models.FMap, self.models.FSlot)):
+            return o.setitem(self, k, v)
         if isinstance(o, dict):
             if is_concrete(k):
                 self.note_write(o, k)
